@@ -267,8 +267,192 @@ fn hist(a: &[&str]) -> Option<String> {
     Some(format!("ok {}", dumps.join(" / ")))
 }
 
+// ---------------------------------------------------------------------------------------------
+// api-coverage additions: PartialOrd (provided `< <= > >=` through `partial_cmp`), `!=`, Clone::clone, and the
+// values produced by the crate's `arbitrary::Arbitrary` / `quickcheck::Arbitrary` impls (harness features
+// `arbitrary` / `quickcheck`).
+
+fn opt_ord(o: Option<core::cmp::Ordering>) -> String {
+    match o {
+        Some(o) => format!("some {}", show_ord(o)),
+        None => "none".to_string(),
+    }
+}
+
+/// `< <= > >= !=` as five flags
+fn rel5<T: PartialOrd>(x: &T, y: &T) -> String {
+    format!("ok {}{}{}{}{}", b(x < y), b(x <= y), b(x > y), b(x >= y), b(x != y))
+}
+
+fn canon_i(v: &BigInt) -> bool {
+    canon_u(v.magnitude()) && ((v.sign() == Sign::NoSign) == v.magnitude().is_zero())
+}
+
+#[cfg(feature = "arbitrary")]
+fn arb_u(r: arbitrary::Result<BigUint>) -> String {
+    match r {
+        Ok(v) => format!("ok {}", raw_u(&v)),
+        Err(_) => "err".to_string(),
+    }
+}
+#[cfg(feature = "arbitrary")]
+fn arb_i(r: arbitrary::Result<BigInt>) -> String {
+    match r {
+        Ok(v) => format!("ok {}", raw_i(&v)),
+        Err(_) => "err".to_string(),
+    }
+}
+#[cfg(feature = "arbitrary")]
+fn hint(h: (usize, Option<usize>)) -> String {
+    match h {
+        (lo, Some(hi)) => format!("ok {} {}", lo, hi),
+        (lo, None) => format!("ok {} none", lo),
+    }
+}
+
+/// `normalize` as the specification of `biguint_from_vec`: drop high zero digits (independent of the crate)
+#[cfg(feature = "quickcheck")]
+fn strip(mut v: Vec<u64>) -> Vec<u64> {
+    while v.last() == Some(&0) {
+        v.pop();
+    }
+    v
+}
+
+/// `quickcheck::Arbitrary for BigUint`: the value generated from `Gen::from_size_and_seed(size, seed)` must be
+/// canonical and must be the normalised `Vec::<u64>::arbitrary` of an identically seeded `Gen` (the impl makes
+/// exactly that one call); every `shrink()` candidate (first `lim`) likewise against `Vec<u64>::shrink`.
+/// Answer: `ok <canonical> <matches the reference> <all shrink candidates canonical and matching>`.
+#[cfg(feature = "quickcheck")]
+fn qc_u(size: usize, seed: u64, lim: usize) -> String {
+    use quickcheck::{Arbitrary, Gen};
+    let mut g1 = Gen::from_size_and_seed(size, seed);
+    let mut g2 = Gen::from_size_and_seed(size, seed);
+    let x = BigUint::arbitrary(&mut g1);
+    let reference = Vec::<u64>::arbitrary(&mut g2);
+    let want = strip(reference);
+    let canon = canon_u(&x);
+    let same = raw_u(&x) == show_limbs(&want);
+    let mut shr_ok = true;
+    if canon {
+        let mut refs = x.to_u64_digits().shrink();
+        let mut n = 0;
+        for c in x.shrink() {
+            let r = refs.next();
+            if !canon_u(&c) || r.map(|r| show_limbs(&strip(r))) != Some(raw_u(&c)) {
+                shr_ok = false;
+                break;
+            }
+            n += 1;
+            if n >= lim {
+                break;
+            }
+        }
+        if n < lim && shr_ok && refs.next().is_some() {
+            shr_ok = false; // the crate's shrinker stopped early
+        }
+    }
+    format!("ok {}{}{}", b(canon), b(same), b(shr_ok))
+}
+
+/// `quickcheck::Arbitrary for BigInt`: `bool::arbitrary` picks Plus / Minus, then `BigUint::arbitrary`; the
+/// result must be canonical (NoSign exactly for a zero magnitude) and equal to that reference; shrink candidates
+/// keep the sign of the value and shrink the magnitude.
+#[cfg(feature = "quickcheck")]
+fn qc_i(size: usize, seed: u64, lim: usize) -> String {
+    use quickcheck::{Arbitrary, Gen};
+    let mut g1 = Gen::from_size_and_seed(size, seed);
+    let mut g2 = Gen::from_size_and_seed(size, seed);
+    let x = BigInt::arbitrary(&mut g1);
+    let positive = bool::arbitrary(&mut g2);
+    let want = strip(Vec::<u64>::arbitrary(&mut g2));
+    let want_sign = if want.is_empty() {
+        Sign::NoSign
+    } else if positive {
+        Sign::Plus
+    } else {
+        Sign::Minus
+    };
+    let canon = canon_i(&x);
+    let same = raw_i(&x) == format!("{}{}", show_sign(want_sign), show_limbs(&want));
+    let mut shr_ok = true;
+    if canon {
+        let sign = x.sign();
+        let mut refs = x.magnitude().to_u64_digits().shrink();
+        let mut n = 0;
+        for c in x.shrink() {
+            let r = refs.next().map(strip);
+            let ok = match r {
+                Some(r) => {
+                    let s = if r.is_empty() { Sign::NoSign } else { sign };
+                    raw_i(&c) == format!("{}{}", show_sign(s), show_limbs(&r))
+                }
+                None => false,
+            };
+            if !canon_i(&c) || !ok {
+                shr_ok = false;
+                break;
+            }
+            n += 1;
+            if n >= lim {
+                break;
+            }
+        }
+        if n < lim && shr_ok && refs.next().is_some() {
+            shr_ok = false;
+        }
+    }
+    format!("ok {}{}{}", b(canon), b(same), b(shr_ok))
+}
+
 pub fn handle(op: &str, a: &[&str]) -> Option<String> {
     Some(match (op, a) {
+        ("u.partial_cmp", [x, y]) => opt_ord(parse_u(x)?.partial_cmp(&parse_u(y)?)),
+        ("i.partial_cmp", [x, y]) => opt_ord(parse_i(x)?.partial_cmp(&parse_i(y)?)),
+        ("u.rel", [x, y]) => rel5(&parse_u(x)?, &parse_u(y)?),
+        ("i.rel", [x, y]) => rel5(&parse_i(x)?, &parse_i(y)?),
+        ("u.clone", [x]) => format!("ok {}", raw_u(&parse_u(x)?.clone())),
+        ("i.clone", [x]) => format!("ok {}", raw_i(&parse_i(x)?.clone())),
+        #[cfg(feature = "arbitrary")]
+        ("arb.u", [bs]) => {
+            let bytes = parse_bytes(bs)?;
+            arb_u(<BigUint as arbitrary::Arbitrary>::arbitrary(&mut arbitrary::Unstructured::new(&bytes)))
+        }
+        #[cfg(feature = "arbitrary")]
+        ("arb.u_rest", [bs]) => {
+            let bytes = parse_bytes(bs)?;
+            arb_u(<BigUint as arbitrary::Arbitrary>::arbitrary_take_rest(arbitrary::Unstructured::new(&bytes)))
+        }
+        #[cfg(feature = "arbitrary")]
+        ("arb.i", [bs]) => {
+            let bytes = parse_bytes(bs)?;
+            arb_i(<BigInt as arbitrary::Arbitrary>::arbitrary(&mut arbitrary::Unstructured::new(&bytes)))
+        }
+        #[cfg(feature = "arbitrary")]
+        ("arb.i_rest", [bs]) => {
+            let bytes = parse_bytes(bs)?;
+            arb_i(<BigInt as arbitrary::Arbitrary>::arbitrary_take_rest(arbitrary::Unstructured::new(&bytes)))
+        }
+        #[cfg(feature = "arbitrary")]
+        ("arb.u_size_hint", [d]) => hint(<BigUint as arbitrary::Arbitrary>::size_hint(d.parse().ok()?)),
+        #[cfg(feature = "arbitrary")]
+        ("arb.i_size_hint", [d]) => hint(<BigInt as arbitrary::Arbitrary>::size_hint(d.parse().ok()?)),
+        #[cfg(feature = "quickcheck")]
+        ("qc.u", [size, seed]) => {
+            let size: usize = size.parse().ok()?;
+            if size == 0 {
+                return None; // `Vec::arbitrary` samples `0..size`
+            }
+            qc_u(size, seed.parse().ok()?, 300)
+        }
+        #[cfg(feature = "quickcheck")]
+        ("qc.i", [size, seed]) => {
+            let size: usize = size.parse().ok()?;
+            if size == 0 {
+                return None;
+            }
+            qc_i(size, seed.parse().ok()?, 300)
+        }
         ("u.cmp", [x, y]) => show_ord(parse_u(x)?.cmp(&parse_u(y)?)).to_string(),
         ("i.cmp", [x, y]) => show_ord(parse_i(x)?.cmp(&parse_i(y)?)).to_string(),
         ("u.eq", [x, y]) => show_bool(parse_u(x)? == parse_u(y)?).to_string(),
